@@ -4,7 +4,7 @@ from ..casadi_model import InterpRaise, Unsupported, MatVal, CA, mat_equal, to_m
 from .. import casadi_model as cm
 from ..decide import decide, decide_mat, EQUAL, DIFFERENT, UNKNOWN
 from ..engine import sym_atoms_of, first_diff, short
-from ..poly import Poly, CFG
+from ..poly import all_atoms, Poly, CFG
 from fractions import Fraction
 
 GROUPS12 = ["SO2", "SE2", "R2", "R3", "SO3Quat", "SO3Mrp", "SO3Dcm", "SO3EulerB321", "SE3Quat", "SE3Mrp", "SE23Quat", "SE23Mrp"]
@@ -151,6 +151,52 @@ def verdict_by_branches(rep, rule, instance, A, B, quats=(), where=None, what=""
     else:
         rep.incomplete(rule, instance, "%s: cannot decide (different opaque building blocks), %s" % (what, detail), where=where)
     return worst
+
+
+def check_rk4_callables(w, rep, rule, label, thunk, where):
+    """Every callable handed to util.rk4 while `thunk` runs must pass ITS OWN state argument on: f(t, s) for a fresh state s
+    is f(t, y0) with y0 replaced by s.  A closure that captures the start-of-step state instead (`lambda t, y: g(t, x, ...)`)
+    makes all four stages evaluate the field at y0: the step degenerates to forward Euler, with every other invariant
+    (norm, triangularity, finiteness) intact."""
+    from .liecommon import capture_calls
+    val, seen = capture_calls(w, "rk4", thunk)
+    n = 0
+    for env in seen:
+        f, y = env.get("f"), env.get("y")
+        t = env.get("t")
+        if f is None or not isinstance(y, MatVal):
+            continue
+        n += 1
+        ya = [p.single_atom() for p in y.flat()]
+        s = w.sym("s~%d" % n, y.r, y.c) if y.c > 1 else w.sym("s~%d" % n, y.r)
+        inst = "%s: rk4 call %d integrates a field that uses its state argument" % (label, n)
+        try:
+            out_s = w.callf(f, t, s)
+            out_y = w.callf(f, t, y)
+        except (InterpRaise, Unsupported) as ex:
+            rep.incomplete(rule, inst, "cannot evaluate the callable: %s" % ex, where=where)
+            continue
+        if not isinstance(out_s, MatVal) or not isinstance(out_y, MatVal):
+            rep.incomplete(rule, inst, "callable does not return a matrix", where=where)
+            continue
+        deps_y = set()
+        for p in out_y.flat():
+            deps_y |= {a for a in all_atoms(p) if a.kind == "sym"}
+        uses_y0 = any(a is not None and a in deps_y for a in ya)
+        sa = {p.single_atom() for p in s.flat()}
+        deps_s = set()
+        for p in out_s.flat():
+            deps_s |= {a for a in all_atoms(p) if a.kind == "sym"}
+        if not uses_y0:
+            rep.na(rule, inst, "the field does not depend on the state at all")
+            continue
+        stale = [a for a in ya if a is not None and a in deps_s]
+        if stale or not (deps_s & sa):
+            rep.fail(rule, inst, "the callable evaluates the field at the start-of-step state (%s) whatever state rk4 passes in: all stages see y0 and the step is forward Euler, not fourth order"
+                     % ", ".join(repr(a) for a in stale[:3]), where=where)
+        else:
+            rep.ok(rule, inst)
+    return val, n
 
 
 def eye(n):
